@@ -96,7 +96,11 @@ def decode(
         header, payload = _decode_jws(_value, key, algorithms, registry)
 
     try:
-        claims: Claims = json.loads(payload, cls=decoder_cls, parse_constant=_not_json)
+        if decoder_cls is None:
+            claims: Claims = json.loads(payload, parse_constant=_not_json)
+        else:
+            # a decoder class of the caller is used as it is
+            claims = json.loads(payload, cls=decoder_cls)
     except (TypeError, ValueError, RecursionError):
         raise InvalidPayloadError()
 
